@@ -122,6 +122,7 @@ type Contract struct {
 	Ghost    []SBinder // ghost havoc'd variables for lemma
 	Induct   string   // induction variable for lemmas
 	Bounded  string   // non-empty: this is a bounded stand-in description
+	Patterns [][]SExpr // instantiation patterns when the lemma is used as an axiom
 }
 
 func (c *Contract) Key() string {
@@ -609,7 +610,7 @@ var clauseKeywords = map[string]bool{
 	"decreases": true, "trusted": true, "pure": true, "pred": true, "fn": true,
 	"lemma": true, "axiom": true, "call": true, "assert": true, "abstracts": true,
 	"props": true, "uses": true, "noinline": true, "ghost": true, "induct": true,
-	"package": true, "recfn": true, "bounded": true, "use": true,
+	"package": true, "recfn": true, "bounded": true, "use": true, "pattern": true,
 }
 
 func firstWord(s string) string {
@@ -767,6 +768,16 @@ func parseSpecFile(path, pkgPath string) (*SpecFile, error) {
 				cur.Uses = append(cur.Uses, strings.Fields(strings.ReplaceAll(rest, ",", " "))...)
 			case "induct":
 				cur.Induct = rest
+			case "pattern":
+				var pat []SExpr
+				for _, part := range splitTop(rest, ';') {
+					e, err := parseSpecExpr(part)
+					if err != nil {
+						return nil, fail(i, "%v", err)
+					}
+					pat = append(pat, e)
+				}
+				cur.Patterns = append(cur.Patterns, pat)
 			case "ghost":
 				toks, err := lexSpec(rest)
 				if err != nil {
